@@ -279,12 +279,11 @@ func (db *DB) Delete(key []byte) error {
 func (db *DB) ListKeys() [][]byte {
 	iterator := db.index.Iterator(false)
 	defer iterator.Close()
-	keys := make([][]byte, db.index.Size())
-	var idx int
+	// 快照中的 key 数量可能与此刻索引的大小不同, 不可预先按索引大小定长
+	keys := make([][]byte, 0)
 	// 直接通过迭代器遍历获取所有 key
 	for iterator.Rewind(); iterator.Valid(); iterator.Next() {
-		keys[idx] = iterator.Key()
-		idx++
+		keys = append(keys, iterator.Key())
 	}
 	return keys
 }
